@@ -4,13 +4,15 @@
 (* single Read step computes the outcome the real reader must produce.           *)
 EXTENDS FCSBytes, TLC
 CONSTANTS Slice            \* which family of scenarios this run enumerates
-VARIABLES scn, file, out
+VARIABLES scn, file, out, cls
 
-vars == <<scn, file, out>>
+vars == <<scn, file, out, cls>>
 
-Lay(ver, dt, mode, bo, widths, rk, N, off, endc, pad, ev, stext) ==
+LayA(ver, dt, mode, bo, widths, rk, N, off, endc, pad, ev, stext, an) ==
   [ver |-> ver, dt |-> dt, mode |-> mode, bo |-> bo, widths |-> widths, rk |-> rk, N |-> N,
-   off |-> off, endc |-> endc, pad |-> pad, ev |-> ev, stext |-> stext]
+   off |-> off, endc |-> endc, pad |-> pad, ev |-> ev, stext |-> stext, an |-> an]
+Lay(ver, dt, mode, bo, widths, rk, N, off, endc, pad, ev, stext) ==
+  LayA(ver, dt, mode, bo, widths, rk, N, off, endc, pad, ev, stext, "none")
 
 W4 == {8, 16, 24, 32}
 W8 == {8, 16, 24, 32, 40, 48, 56, 64}
@@ -25,6 +27,10 @@ IntLayouts(vers, bos, WS, RK, Ns, pads, evs) ==
 
 WellFormedI(l) == Len(l.rk) = Len(l.widths) /\ (l.off = "text" => IsV3(l.ver))
 
+AnalysisLayouts ==     \* an ANALYSIS segment after DATA, located through the HEADER or (3.x) through TEXT
+  {LayA(v, dt, "L", "1234", ws, [p \in 1..Len(ws) |-> "pow"], n, off, ec, pad, "asc", st, an) :
+     v \in {"2.0", "3.0", "3.1"}, dt \in {"I", "F"}, ws \in {<<16, 16>>, <<32>>, <<8, 24>>}, n \in {0, 2},
+     off \in {"header", "text"}, ec \in {"last", "onepast"}, pad \in {0, 3}, st \in BOOLEAN, an \in {"header", "text"}}
 FloatLayouts ==
   {Lay(v, dt, "L", bo, ws, [p \in 1..Len(ws) |-> "pow"], n, off, ec, pad, "asc", st) :
      v \in {"2.0", "3.0", "3.1"}, dt \in {"F", "D"}, bo \in {"4321", "21", "1234", "12"},
@@ -52,6 +58,7 @@ Layouts ==
     [] Slice = "int-odd" ->      \* ranges 2^(w-1)+1: smallest range needing all w bits
          {l \in IntLayouts({"3.0"}, {"4321", "1234"}, W8, {"odd"}, {2}, {0}, {"ones"}) : WellFormedI(l)}
     [] Slice = "float" -> FloatLayouts
+    [] Slice = "analysis" -> {l \in AnalysisLayouts : (l.off = "text" \/ l.an = "text") => IsV3(l.ver)}
     [] Slice = "unsupported" -> Unsupported
     [] Slice = "patterns" -> {l \in PatternLayouts : Len(l.rk) >= Len(l.widths)}
     [] OTHER -> {}
@@ -65,7 +72,9 @@ FaultLayouts ==
              Lay("2.0", "I", "L", "4321", <<8>>, <<"pow">>, 2, "header", "onepast", 0, "asc", FALSE),
              Lay("3.0", "F", "L", "1234", <<32>>, <<"pow">>, 1, "text", "last", 0, "asc", FALSE),
              Lay("3.1", "I", "L", "12", <<32, 32>>, <<"pow", "powm3">>, 1, "header", "last", 3, "asc", TRUE),
-             Lay("2.0", "D", "L", "21", <<64>>, <<"pow">>, 1, "header", "last", 0, "asc", FALSE) }
+             Lay("2.0", "D", "L", "21", <<64>>, <<"pow">>, 1, "header", "last", 0, "asc", FALSE),
+             LayA("3.0", "I", "L", "1234", <<16>>, <<"pow">>, 2, "header", "last", 0, "asc", FALSE, "header"),
+             LayA("3.1", "I", "L", "4321", <<8, 8>>, <<"pow", "pow">>, 1, "text", "onepast", 3, "asc", TRUE, "text") }
       more == { Lay(v, "I", "L", bo, ws, [p \in 1..Len(ws) |-> "pow"], n, off, ec, 0, "asc", st) :
                   v \in {"2.0", "3.1"}, bo \in {"4321", "1234"}, ws \in {<<8>>, <<16, 8>>, <<24>>, <<16, 32>>},
                   n \in {0, 1, 2}, off \in {"header", "text"}, ec \in {"last", "onepast"}, st \in {FALSE} }
@@ -82,20 +91,6 @@ FaultRun == Slice \in {"faults-quick", "faults-full"}
 Scenarios == IF FaultRun THEN {[lay |-> l, flt |-> Pending] : l \in FaultLayouts}
              ELSE {[lay |-> FixRk(l), flt |-> NoFault] : l \in Layouts}
 
-Init == /\ scn \in Scenarios
-        /\ file = <<>>
-        /\ out = [k |-> "todo"]
-(* writing and reading happen in the Next step so that TLC's workers share the work *)
-(* environment: damage the file in one of the enumerated ways *)
-Damage == /\ scn.flt = Pending
-          /\ \E ft \in FaultsOf(scn.lay) : scn' = [scn EXCEPT !.flt = ft]
-          /\ UNCHANGED <<file, out>>
-Read == /\ out.k = "todo" /\ scn.flt # Pending
-        /\ file' = Write(scn.lay, scn.flt)
-        /\ out' = ReadFile(file', RBits(scn.lay))
-        /\ UNCHANGED scn
-Next == Damage \/ Read
-Spec == Init /\ [][Next]_vars
 
 (* A single-field corruption of a GEOMETRY field ($TOT, $PAR, $PnB, DATA offsets) can produce a   *)
 (* file whose declaration is consistent with itself under the very rule the property tolerates  *)
@@ -122,11 +117,43 @@ DecodeExact ==
      /\ out.k = "ok" /\ out.N = scn.lay.N /\ out.D = Len(scn.lay.widths)
      /\ out.data = MaskedEvents(scn.lay)
      /\ out.text = WrittenText(scn.lay, NoFault)
+     /\ out.an = (IF HasAnalysis(scn.lay) THEN DictOf(FlatToks(APairs)) ELSE {})
 UnsupportedRefused == (out.k # "todo" /\ ~Supported(scn.lay)) => out.k = "refused"
 
 (* C16: a damaged file is refused, or read as exactly what it holds *)
 Intact == /\ out.k = "ok" /\ out.N = scn.lay.N /\ out.D = Len(scn.lay.widths)
           /\ out.data = MaskedEvents(scn.lay)
           /\ out.text = WrittenText(scn.lay, scn.flt)
-LoudFailure == (out.k # "todo" /\ scn.flt # NoFault) => (out.k = "refused" \/ Intact \/ Ambiguous)
+          /\ out.an = (IF HasAnalysis(scn.lay) THEN DictOf(FlatToks(APairs)) ELSE {})
+(* DEVIATION of the implementation, named: a file cut inside (or just before) its trailing ANALYSIS  *)
+(* segment is read with intact events and TEXT keywords but an empty or shortened ANALYSIS          *)
+(* dictionary (parse errors of that segment are swallowed by design, shortened segments parse).    *)
+(* The property asks for "the keywords of the intact file or an error": reported by the conformance *)
+(* driver as known finding C16/truncated-analysis-read-silently.                                    *)
+AnalysisLoss(s, o) ==
+  /\ s.flt.k = "trunc" /\ HasAnalysis(s.lay) /\ o.k = "ok"
+  /\ o.N = s.lay.N /\ o.D = Len(s.lay.widths) /\ o.data = MaskedEvents(s.lay) /\ o.text = WrittenText(s.lay, s.flt)
+  /\ o.an # DictOf(FlatToks(APairs))
+Classify(s, o) == IF s.flt = NoFault THEN "no-fault" ELSE IF o.k = "refused" THEN "refused"
+                  ELSE IF AnalysisLoss(s, o) THEN "analysis-loss"
+                  ELSE IF s.flt.k = "field" /\ GeometryField(s.flt.field) THEN "self-consistent-geometry" ELSE "intact"
+LoudFailure == (out.k # "todo" /\ scn.flt # NoFault) => (out.k = "refused" \/ Intact \/ Ambiguous \/ AnalysisLoss(scn, out))
+
+(* ---- the machine ---- *)
+Init == /\ scn \in Scenarios
+        /\ file = <<>>
+        /\ out = [k |-> "todo"]
+        /\ cls = "-"
+(* writing and reading happen in the Next step so that TLC's workers share the work *)
+(* environment: damage the file in one of the enumerated ways *)
+Damage == /\ scn.flt = Pending
+          /\ \E ft \in FaultsOf(scn.lay) : scn' = [scn EXCEPT !.flt = ft]
+          /\ UNCHANGED <<file, out, cls>>
+Read == /\ out.k = "todo" /\ scn.flt # Pending
+        /\ file' = Write(scn.lay, scn.flt)
+        /\ out' = ReadFile(file', RBits(scn.lay))
+        /\ cls' = Classify(scn, out')
+        /\ UNCHANGED scn
+Next == Damage \/ Read
+Spec == Init /\ [][Next]_vars
 =============================================================================
